@@ -10,6 +10,7 @@
 import AnthemModel.Props.C05
 import AnthemModel.Props.C19
 import AnthemModel.Model.Strong
+import AnthemModel.Proofs.StrongSem
 namespace Anthem.C03
 open Asp
 
@@ -122,6 +123,72 @@ theorem gamma_direction_refutes {J : Interp} {M : HTI} (hm : C05.Merges J M) (ρ
     rintro F (hF | ⟨F', hF', rfl⟩)
     · exact h1 F hF
     · exact (C05.gamma_correct hm F' ρ).mp (h2 F' hF')
+
+/-- **C03 for the tau\* representation, every flag combination.** Some emitted problem is refuted
+    by the classical interpretation that merges `(H,T)` iff the h-extents are included in the
+    t-extents (on the programs' predicates) and `(H,T)` satisfies one program but not the other, in a
+    direction the task asks for. Hypotheses: the pass bound sufficed (`strongProblems … = some ps`),
+    no usize overflow of the global variables, `rename_conflicting_symbols` is the identity on the
+    assembled problems (`NoSymbolConflict`; otherwise the statement is about renamed constants),
+    and - only when simplification is on - `H ⊆ T` everywhere (the HT portfolio is an
+    HT-equivalence for such interpretations; for `H ⊄ T` on a program predicate the left side is
+    false by the transition axioms alone, see `strong_refutes_needs_sub`). -/
+theorem strong_refutes (t : StrongTask) (hrep : t.rep = .tauStar) (fuel : Nat) (ps : List Problem)
+    (h : strongProblems t fuel = some ps)
+    (hpl : globalsPanic t.left = false) (hpr : globalsPanic t.right = false)
+    (hnc : NoSymbolConflict t fuel)
+    {J : Interp} {M : HTI} (hm : C05.Merges J M) (hsub : t.simplify = true → M.Sub) (ρ : Asg) :
+    (∃ P ∈ ps, Refutes J ρ P) ↔
+      SubOn M (ext t.left.preds t.right.preds) ∧
+      (((t.direction = .universal ∨ t.direction = .forward) ∧
+          progSat M .here t.left ∧ ¬ progSat M .here t.right) ∨
+       ((t.direction = .universal ∨ t.direction = .backward) ∧
+          progSat M .here t.right ∧ ¬ progSat M .here t.left)) :=
+  Anthem.strong_refutes t hrep fuel ps h hpl hpr hnc hm hsub ρ
+
+/-- Without any hypothesis on `(H,T)`, representation or flags: an interpretation whose h-extents
+    are not included in its t-extents (on a predicate of the programs) refutes no emitted problem. -/
+theorem strong_refutes_needs_sub (t : StrongTask) (fuel : Nat) (ps : List Problem)
+    (h : strongProblems t fuel = some ps) (hnc : NoSymbolConflict t fuel)
+    {J : Interp} {M : HTI} (hm : C05.Merges J M) (ρ : Asg)
+    (hns : ¬ SubOn M (ext t.left.preds t.right.preds)) : ¬ ∃ P ∈ ps, Refutes J ρ P :=
+  fun href => hns (strong_refuted_subOn t fuel ps h hnc hm ρ href)
+
+/-- Hence: all emitted problems of a universal task are free of standard countermodels exactly when
+    the two programs have the same here-and-there models, i.e. are strongly equivalent. -/
+theorem strongly_equivalent_iff (t : StrongTask) (hrep : t.rep = .tauStar)
+    (hdir : t.direction = .universal) (fuel : Nat) (ps : List Problem)
+    (h : strongProblems t fuel = some ps)
+    (hpl : globalsPanic t.left = false) (hpr : globalsPanic t.right = false)
+    (hnc : NoSymbolConflict t fuel) :
+    (∀ (J : Interp) (M : HTI), C05.Merges J M → M.Sub → ∀ ρ : Asg, ¬ ∃ P ∈ ps, Refutes J ρ P) ↔
+      (∀ M : HTI, M.Sub → (progSat M .here t.left ↔ progSat M .here t.right)) := by
+  constructor
+  · intro hall M hs
+    obtain ⟨J, hm⟩ := C05.merge_exists M
+    have hno := hall J M hm hs (fun _ => .inf)
+    rw [strong_refutes t hrep fuel ps h hpl hpr hnc hm (fun _ => hs)] at hno
+    have hsubon : SubOn M (ext t.left.preds t.right.preds) := fun p _ ds _ hh => hs _ _ hh
+    constructor
+    · intro hL
+      exact Classical.byContradiction fun hR => hno ⟨hsubon, Or.inl ⟨Or.inl hdir, hL, hR⟩⟩
+    · intro hR
+      exact Classical.byContradiction fun hL => hno ⟨hsubon, Or.inr ⟨Or.inl hdir, hR, hL⟩⟩
+  · intro hall J M hm hs ρ href
+    rw [strong_refutes t hrep fuel ps h hpl hpr hnc hm (fun _ => hs)] at href
+    obtain ⟨_, ⟨_, hL, hR⟩ | ⟨_, hR, hL⟩⟩ := href
+    · exact hR ((hall M hs).mp hL)
+    · exact hL ((hall M hs).mpr hR)
+
+/-- Non-vacuity of the hypotheses: a task with a symbolic constant and variables satisfies
+    `NoSymbolConflict` and the pass bound (kernel-evaluated). -/
+example : NoSymbolConflict ⟨[⟨.basic ⟨"p", [.pre (.sym "a")]⟩, []⟩],
+    [⟨.basic ⟨"p", [.var "X"]⟩, [.lit ⟨.pos, ⟨"q", [.var "X"]⟩⟩]⟩],
+    .sequential, .universal, .tauStar, false, false⟩ 8 := by
+  intro l r hl hr
+  injection hl with hl; injection hr with hr
+  subst hl; subst hr
+  decide
 
 /-- Non-vacuity: the model really emits a forward and a backward family for a universal task. -/
 example : ((strongProblems ⟨[⟨.basic ⟨"p", []⟩, []⟩], [⟨.basic ⟨"p", []⟩, [.lit ⟨.pos, ⟨"q", []⟩⟩]⟩],
